@@ -256,6 +256,8 @@ def child_parses(spec, jobs):
                     raise
                 except Exception:
                     pass
+                if clock.exceeded:  # the injected exception may surface as another type
+                    raise StepBudgetExceeded("masked")
                 t0 = clock.ticks
                 # baseline: without recovery on the actual input
                 clock.reset(BASE_BUDGET)
@@ -267,6 +269,8 @@ def child_parses(spec, jobs):
                 except Exception as e:
                     base = None
                     rep["base_exc"] = type(e).__name__
+                if clock.exceeded:
+                    raise StepBudgetExceeded("masked")
             except StepBudgetExceeded:
                 # the parser WITHOUT recovery does not terminate within the base
                 # budget on this input (e.g. LR on a cyclic grammar): not a
@@ -305,9 +309,16 @@ def child_parses(spec, jobs):
             clock.reset(budget)
             raised = None
             res = None
+            over = False
             try:
                 res = p.parse(text)
             except StepBudgetExceeded:
+                over = True
+            except Exception as e:
+                raised = e
+            if clock.exceeded:
+                over = True  # whatever exception type surfaced, or none
+            if over:
                 ticks = clock.ticks
                 clock.reset()
                 if not act["in"] and act["last"] < budget // 2:
@@ -326,8 +337,6 @@ def child_parses(spec, jobs):
                 rep["ticks"] = ticks
                 reports.append(rep)
                 continue
-            except Exception as e:
-                raised = e
             rep["ticks"] = clock.ticks
             clock.reset()
             rep["t0"] = t0
